@@ -317,10 +317,23 @@ as such; they are not obligations. `decide +kernel` is used for finite facts abo
 structure facts equal their expectation).
 Translator: `gogen` and go/packages; for C13 additionally its table of what standard-library calls
 do to their slice arguments; for C14/C19 its statement classifiers (anything unclassified becomes
-`.other`/`.unknown`, which fails the obligation rather than passing silently).
+`.other`/`.unknown`, which fails the obligation rather than passing silently). For the regenerated
+function bodies (§0.1a) the trusted part is, per IR, the translator that writes the program and the
+Lean interpreter that gives it meaning (`Base/SFlow*.lean`, `HashIR*.lean`, `B64IRBase.lean`,
+`StreamIRBase.lean`, `TIIR.lean`, `CodecIR.lean`, `A2IR.lean`, `DesIR.lean`, `MiscIRBase.lean`): Go's
+evaluation order, integer wrap-around, slicing/aliasing, `switch`/`fallthrough`, `break`/`continue`,
+closures (lifted), `defer` (lowered to an epilogue) are the interpreter's rules; library calls
+(`reflect`, `strconv`, `sort.Slice` as any sorted permutation, `sync.Map` as atomic steps, `crypto/rand`
+as a scripted entropy reader, BLAKE2b/Blowfish/MD4/UTF-16 as opaque primitives with a stated spec and a
+proved witness) are described there and listed in each Props file's header. Every interpreter has a
+third outcome `stuck` (unknown node, exhausted loop bound, type confusion) that equals neither side of
+an equality theorem, and `no_unknown_nodes` theorems state that the current source translates without
+an unknown node. The interpreters are also run on concrete inputs (`#guard`) against the executable
+models and, by the agents who wrote them, against the real Go code.
 Correspondence: differential, seeded (`VERIF_SEED`, default 1), with the generator's distribution in
-the evidence. Hand models tied only that way: the codec (`Model/Codec.lean`), parser, base64 loops
-and stream state machines, dispatcher, KDF bodies, scheme pipeline, Argon2 fill loop.
+the evidence. It now covers everything twice where a body is regenerated, and alone ties: the
+`Unmarshal` walker beyond string fields, the warm path of the type cache, the registry's concurrency
+protocol, the text (un)marshalers of the scheme field types.
 Modelled rather than verified, or only executed: `reflect`, `strconv`, `sync.Map`, goroutines /
 channels / WaitGroup, the Go memory model, `crypto/*` and x/crypto primitives (Lean copies in
 `Prim/`, validated differentially), `crypto/rand` and the OS entropy source, the amd64 Argon2
